@@ -4,12 +4,12 @@ CONSTANTS
   Slots = {1, 2}
   InitMenu <- InitMC
   NewMenu <- NewFocus
-  SeekSlots = {1}
-  MaxFiles = 3
+  SeekSlots = {1, 2}
+  MaxFiles = 4
   MaxNew = 1
   MaxCursors = 2
   MaxOpen = 2
-  MaxReplaces = 1
+  MaxReplaces = 2
   MaxStepwise = 1
   MaxOps = 99
   Record = FALSE
